@@ -18,6 +18,28 @@ class RecPeer:
         self.ids.append(header.id)
 
 
+def label_frames(b, max_size):
+    """[body_start, id] for every complete frame of the byte string, in order, up to the first wrong magic / over-limit length:
+    id = the decoded header's id if the protocol decoder (MessageHeader + Message, messages.py) accepts exactly the frame's bytes,
+    -2 if it rejects them.  The frame boundaries themselves are decided by Framing!Ref in TLC; these are only the payload labels."""
+    import io
+    from skepticoin.networking.messages import MessageHeader, Message
+    out, p = [], 0
+    while len(b) - p >= 8 and b[p:p + 4] == netmsg.MAGIC:
+        n = int.from_bytes(b[p + 4:p + 8], "big")
+        if n > max_size or len(b) - p - 8 < n:
+            break
+        f = io.BytesIO(b[p + 8:p + 8 + n])
+        try:
+            h = MessageHeader.stream_deserialize(f)
+            Message.stream_deserialize(f)
+            out.append([p + 8, h.id])
+        except Exception:
+            out.append([p + 8, -2])
+        p += 8 + n
+    return out
+
+
 def run_cuts(stream_bytes, cuts, raw=False):
     """Feed the real receiver; returns events (one per read)."""
     import skepticoin.networking.remote_peer as rp
@@ -102,6 +124,13 @@ def run(pid, tier, replay=None):
             elif isinstance(p, tuple) and p[0] == "len_then_body":        # over-limit length directly followed by a decodable body
                 mid += 1
                 b += netmsg.MAGIC + p[1].to_bytes(4, "big") + netmsg.body(msgs[p[2]], mid) + b"z" * p[3]
+            elif isinstance(p, tuple) and p[0] == "declared":             # a frame whose length field is off by p[2] (negative: under-declared)
+                mid += 1
+                body = netmsg.body(msgs[p[1]], mid)
+                b += netmsg.MAGIC + max(len(body) + p[2], 0).to_bytes(4, "big") + body
+            elif p == "zero":                                             # a frame of declared length 0 followed by a message body
+                mid += 1
+                b += netmsg.MAGIC + (0).to_bytes(4, "big") + netmsg.body(msgs[7], mid)
             elif p == "truncated":
                 body = netmsg.body(msgs[4], mid)
                 b += netmsg.MAGIC + len(body).to_bytes(4, "big") + body[:-5]
@@ -114,13 +143,20 @@ def run(pid, tier, replay=None):
     shape_defs = [[7, 4], [0, 7, 4], [4, 3, 7], [7, "badmagic", 4], [4, "oversize", 7], [7, 7, 7], [3, "maxlen"], [4, "truncated"],
                   ["badmagic0"], [1, 2], [8, 7], [7, 4, "badmagic"],
                   [7, ("len_then_body", 0xffffffff, 7, 1), 7], [("len_then_body", 0xfffffffc, 7, 4), 4], [7, ("len_then_body", 0x80000000, 7, 0)],
-                  [("len_then_body", real_max + 1, 7, 0), 7], [7, ("len_then_body", 0x7fffffff, 4, 3)]]
+                  [("len_then_body", real_max + 1, 7, 0), 7], [7, ("len_then_body", 0x7fffffff, 4, 3)],
+                  # corrupted length fields: under-declared (the payload's tail and whatever follows sit behind the frame end), zero, over-declared
+                  [7, ("declared", 4, -1), 7], [("declared", 7, -5), 4], [4, "zero", 7], [("declared", 3, 8), 7, 7], [7, ("declared", 1, -30), 4, 7],
+                  [("declared", 0, -2), 7]]
     if not quick:
         shape_defs += [[5], [6, 4], [0, 1, 2, 3, 4, 7, 8]]
     streams, traces, ids = [], [], []
     tid = 0
     for sd_ in shape_defs:
-        b, idmap = mk(sd_)
+        b, idmap0 = mk(sd_)
+        idmap = label_frames(b, real_max)
+        corrupted_len = any(p_ == "zero" or (isinstance(p_, tuple) and p_[0] == "declared") for p_ in sd_)
+        if not corrupted_len and idmap != idmap0[:len(idmap)]:
+            return machinery_failure(pid, "frame labels of shape %r disagree with the way the stream was built" % (sd_,))
         streams.append({"bytes": list(b), "ids": idmap})
         s = len(streams)
         L = len(b)
